@@ -1,2 +1,621 @@
-// Package c10: implementation-side ops, generators and oracles for property C10.
 package c10
+
+import (
+	"bytes"
+	"encoding/binary"
+	"fmt"
+	"math"
+	"strconv"
+	"strings"
+
+	"github.com/cossacklabs/acra/pseudonymization"
+
+	"verifharness/internal/core"
+)
+
+func init() { core.RegisterProp("C10", run) }
+
+var tyNames = []string{"int32", "int64", "str", "bytes", "email"}
+
+type ctxT struct{ cid, ac string } // hex
+
+var contexts = []ctxT{
+	{core.Hex([]byte("client_a")), "-"},
+	{core.Hex([]byte("client_b")), "-"},
+	{core.Hex([]byte("client_a")), core.Hex([]byte("zone1"))}, // legacy zone context
+	{core.Hex([]byte("Y")), "-"},
+	{core.Hex([]byte("clientY")), "-"}, // data‖"client"‖id is ambiguous across contexts: "x"+"clientY" vs "xclient"+"Y"
+	{"-", "-"},
+}
+
+func i32(v int32) []byte { b := make([]byte, 4); binary.LittleEndian.PutUint32(b, uint32(v)); return b }
+func i64(v int64) []byte { b := make([]byte, 8); binary.LittleEndian.PutUint64(b, uint64(v)); return b }
+
+var boundaryI32 = []int32{0, 1, -1, 2, math.MaxInt32, math.MinInt32, math.MaxInt32 - 1, math.MinInt32 + 1, 255, 256, 65535, 65536}
+var boundaryI64 = []int64{0, 1, -1, math.MaxInt64, math.MinInt64, math.MaxInt32, math.MinInt32, int64(math.MaxInt32) + 1, int64(math.MinInt32) - 1, 1 << 32, 1<<32 + 1}
+
+func genValue(rd *core.Rand, ty string) []byte {
+	switch ty {
+	case "int32":
+		if rd.Chance(50) {
+			return i32(core.Pick(rd, boundaryI32))
+		}
+		return i32(int32(rd.U64()))
+	case "int64":
+		if rd.Chance(50) {
+			return i64(core.Pick(rd, boundaryI64))
+		}
+		return i64(int64(rd.U64()))
+	case "str":
+		switch rd.Intn(6) {
+		case 0:
+			return []byte{}
+		case 1:
+			return []byte{byte('a' + rd.Intn(3))}
+		case 2:
+			return []byte(strings.Repeat("x", 100+rd.Intn(300)))
+		case 3:
+			return []byte("xclient") // with the ambiguous contexts above
+		case 4:
+			return []byte("x")
+		}
+		return []byte(fmt.Sprintf("value-%d", rd.Intn(6)))
+	case "bytes":
+		switch rd.Intn(4) {
+		case 0:
+			return []byte{}
+		case 1:
+			return []byte{byte(rd.Intn(2))}
+		case 2:
+			return rd.Bytes(1 + rd.Intn(64))
+		}
+		return []byte{0xff, 0xfe, byte(rd.Intn(3))}
+	case "email":
+		switch rd.Intn(5) {
+		case 0:
+			return []byte(strings.Repeat("e", rd.Intn(13))) // every short length incl. 0,1,2 (defect #4) and the threshold 8
+		case 1:
+			return []byte("a@b.cdef")
+		case 2:
+			return []byte("a@b.cde")
+		case 3:
+			return []byte(fmt.Sprintf("user%d@example.com", rd.Intn(4)))
+		}
+		return []byte(strings.Repeat("m", 13+rd.Intn(80)))
+	}
+	panic("harness: type")
+}
+
+// independent (Go-side) shape oracle – the property statement, judged on the implementation's output
+func shapeOracle(ty string, v, t []byte) string {
+	switch ty {
+	case "int32":
+		if len(t) != 4 {
+			return "int32 token is not 4 bytes"
+		}
+	case "int64":
+		if len(t) != 8 {
+			return "int64 token is not 8 bytes"
+		}
+	case "bytes":
+		if len(t) != len(v) {
+			return "bytes token has another length"
+		}
+	case "str":
+		if len(t) != len(v) {
+			return "string token has another length"
+		}
+		for _, c := range t {
+			if !strings.ContainsRune(pseudonymization.VerifCharset(), rune(c)) {
+				return "string token has a character outside the charset"
+			}
+		}
+	case "email":
+		if len(t) != len(v) {
+			return "e-mail token has another length"
+		}
+		if len(v) >= 4 {
+			all, _ := pseudonymization.VerifTLDs()
+			okTLD := false
+			for _, tld := range all {
+				if bytes.HasSuffix(t, []byte(tld)) {
+					okTLD = true
+				}
+			}
+			if !okTLD {
+				return "e-mail token does not end in a listed TLD"
+			}
+			if bytes.Count(t, []byte("@")) != 1 {
+				return "e-mail token does not contain exactly one @"
+			}
+		}
+	}
+	return ""
+}
+
+type item struct {
+	s     string // protocol item
+	kind  byte   // A D T U M R
+	cons  bool
+	ctx   int
+	ty    string
+	v     []byte
+	owner int // for D: index of the thread whose token is looked up (-1: unknown token), foreign when ctx differs
+}
+
+func itemA(cons bool, c int, ty string, v []byte) item {
+	m := "r"
+	if cons {
+		m = "c"
+	}
+	return item{s: fmt.Sprintf("A:%s:%s:%s:%s:%s:_", m, contexts[c].cid, contexts[c].ac, ty, core.Hex(v)), kind: 'A', cons: cons, ctx: c, ty: ty, v: v}
+}
+func itemD(c int, ty string, tok []byte) item {
+	return item{s: fmt.Sprintf("D:%s:%s:%s:%s", contexts[c].cid, contexts[c].ac, ty, core.Hex(tok)), kind: 'D', ctx: c, ty: ty, v: tok, owner: -1}
+}
+func itemT(cons bool, c int, ty string, text []byte) item {
+	m := "r"
+	if cons {
+		m = "c"
+	}
+	return item{s: fmt.Sprintf("T:%s:%s:%s:%s:%s:_", m, contexts[c].cid, contexts[c].ac, ty, core.Hex(text)), kind: 'T', cons: cons, ctx: c, ty: ty, v: text}
+}
+func itemU(c int, ty string, text []byte) item {
+	return item{s: fmt.Sprintf("U:%s:%s:%s:%s", contexts[c].cid, contexts[c].ac, ty, core.Hex(text)), kind: 'U', ctx: c, ty: ty, v: text}
+}
+func itemM(action, sel string) item { return item{s: "M:" + action + ":" + sel, kind: 'M'} }
+func itemR(i int) item              { return item{s: fmt.Sprintf("R:%d", i), kind: 'R'} }
+
+func strs(items []item) []string {
+	out := make([]string, len(items))
+	for i, it := range items {
+		out[i] = it.s
+	}
+	return out
+}
+
+// effective context identity (zone overrides client id)
+func sameCtx(a, b int) bool {
+	x, y := contexts[a], contexts[b]
+	if x.ac != "-" || y.ac != "-" {
+		return x.ac == y.ac
+	}
+	return x.cid == y.cid
+}
+
+func okTok(res string) ([]byte, bool) {
+	if strings.HasPrefix(res, "ok.") {
+		return core.UnHex(res[3:]), true
+	}
+	return nil, false
+}
+
+// execTrace runs a trace on the implementation (phase 1: learn the candidates), then runs the
+// annotated line on implementation AND model (phase 2: correspondence). Returns per-thread results.
+func execTrace(r *core.Run, mode, kind, seed string, items []item) []string {
+	_, cands, _ := runTrace(mode, kind, seed, strs(items))
+	line := fmt.Sprintf("C10.trace %s %s %s %s", mode, kind, seed, strings.Join(withCands(strs(items), cands), " "))
+	out := r.Do(line)
+	resPart := strings.SplitN(out, ";", 2)[0]
+	if resPart == "" {
+		return nil
+	}
+	return strings.Split(resPart, ",")
+}
+
+// judge applies the direct property oracles to a SEQUENTIAL trace's results.
+func judge(r *core.Run, items []item, res []string) {
+	type key struct {
+		ctx int
+		ty  string
+		v   string
+	}
+	canon := func(c int) int { // representative of the effective context
+		for i := range contexts {
+			if sameCtx(i, c) {
+				return i
+			}
+		}
+		return c
+	}
+	tokenOf := map[key]string{} // consistent: value → token (since the last maintenance)
+	valueOf := map[key]string{} // token → value (since the last maintenance)
+	th := 0
+	for _, it := range items {
+		switch it.kind {
+		case 'M':
+			tokenOf = map[key]string{}
+			valueOf = map[key]string{}
+		case 'A':
+			out := res[th]
+			th++
+			r.Check(out != "panic", "anonymize-panic:"+it.ty+fmt.Sprintf(":len%d", len(it.v)), fmt.Sprintf("tokenization of a %d-byte %s value panics", len(it.v), it.ty))
+			tok, ok := okTok(out)
+			if !ok {
+				continue
+			}
+			if msg := shapeOracle(it.ty, it.v, tok); msg != "" {
+				r.Fail("token-shape:"+it.ty, fmt.Sprintf("%s (value %s, token %s)", msg, core.Hex(it.v), core.Hex(tok)))
+			}
+			c := canon(it.ctx)
+			if it.cons {
+				k := key{c, it.ty, string(it.v)}
+				if prev, seen := tokenOf[k]; seen {
+					r.Check(prev == string(tok), "consistent-token-differs", fmt.Sprintf("consistent tokenization of %s %s gave %s then %s", it.ty, core.Hex(it.v), core.Hex([]byte(prev)), core.Hex(tok)))
+				}
+				tokenOf[k] = string(tok)
+			}
+			tk := key{c, it.ty, string(tok)}
+			if pv, seen := valueOf[tk]; seen {
+				r.Check(pv == string(it.v), "token-shared", fmt.Sprintf("values %s and %s share the %s token %s in one context", core.Hex([]byte(pv)), core.Hex(it.v), it.ty, core.Hex(tok)))
+			}
+			valueOf[tk] = string(it.v)
+		case 'D':
+			out := res[th]
+			th++
+			got, ok := okTok(out)
+			r.Check(out != "panic", "deanonymize-panic", "Deanonymize panics")
+			if !ok {
+				if it.owner == -2 {
+					r.Fail("foreign-or-unknown-gets-token", fmt.Sprintf("detokenizing the unknown/foreign %s token %s returned %s instead of the token", it.ty, core.Hex(it.v), out))
+				}
+				continue
+			}
+			if want, known := valueOf[key{canon(it.ctx), it.ty, string(it.v)}]; known {
+				r.Check(string(got) == want, "owner-roundtrip", fmt.Sprintf("owner detokenizes %s token %s to %s, original was %s", it.ty, core.Hex(it.v), core.Hex(got), core.Hex([]byte(want))))
+			} else if it.owner == -2 { // token certainly unknown in this context (foreign or never issued, no maintenance interplay)
+				r.Check(bytes.Equal(got, it.v), "foreign-or-unknown-gets-token", fmt.Sprintf("detokenizing the unknown/foreign %s token %s gave %s", it.ty, core.Hex(it.v), core.Hex(got)))
+			}
+		case 'T', 'U':
+			th++
+		}
+	}
+}
+
+func run(r *core.Run) {
+	r.Rule = "sequences of tokenize/detokenize/maintenance requests (structured: owner/foreign/unknown detokenization of tokens just issued, repeated consistent requests; boundary: integer limits, empty/1-byte/long strings, every e-mail length 0..12; malformed: decimal texts out of range / not numeric, type confusion) over memory and BoltDB stores ± encryption, sequentially and under seeded schedules of atomic store steps; a case is non-trivial when at least one token is issued; distinct by the op list"
+	corpus(r)
+	genCases(r)
+	seqCases(r)
+	dataTokCases(r)
+	concCases(r)
+	freeRunning(r)
+}
+
+// ---------- regression corpus: defect witnesses, always run first ----------
+
+func corpus(r *core.Run) {
+	// §8 #4: e-mail values of 0–2 bytes (slice [:-2] in randomEmail)
+	for _, n := range []int{0, 1, 2, 3, 4, 7, 8} {
+		for _, cons := range []bool{true, false} {
+			v := []byte(strings.Repeat("a", n))
+			its := []item{itemA(cons, 0, "email", v)}
+			r.Begin(fmt.Sprintf("corpus-email-%d-%v", n, cons), true, "stream:corpus", "corpus:short-email")
+			res := execTrace(r, "seq", "mem", "7", its)
+			judge(r, its, res)
+		}
+	}
+	// §8 #15: out-of-range decimal for an int32 column
+	for _, text := range []string{"4294967297", "2147483648", "-2147483649", "9223372036854775807"} {
+		its := []item{itemT(true, 0, "int32", []byte(text))}
+		r.Begin("corpus-int32-range-"+text, true, "stream:corpus", "corpus:int32-range")
+		res := execTrace(r, "seq", "mem", "7", its)
+		judgeDataTok(r, its, res)
+	}
+}
+
+// ---------- generator image: every candidate the real generator draws is in the model's image ----------
+
+func genCases(r *core.Run) {
+	rd := r.Rand
+	for i := 0; i < r.N(400, 8000); i++ {
+		ty := core.Pick(rd, tyNames)
+		n := rd.Intn(14)
+		if rd.Chance(20) {
+			n = rd.Intn(200)
+		}
+		if ty == "int32" {
+			n = 4
+		} else if ty == "int64" {
+			n = 8
+		}
+		seed := strconv.Itoa(rd.Intn(1 << 30))
+		cand, out := genCandidate(ty, n, seed)
+		r.Begin(fmt.Sprintf("gen-%s-%d-%s", ty, n, seed), true, "stream:structured", "gen:"+ty)
+		r.Do(fmt.Sprintf("C10.gen %s %d %s %s", ty, n, seed, core.Hex(cand)))
+		if !r.Check(out != "panic", fmt.Sprintf("anonymize-panic:%s:len%d", ty, n), fmt.Sprintf("the %s generator panics for a %d-byte value", ty, n)) {
+			continue
+		}
+		if msg := shapeOracle(ty, make([]byte, n), cand); msg != "" {
+			r.Fail("token-shape:"+ty, msg+" (token "+core.Hex(cand)+")")
+		}
+	}
+}
+
+// ---------- sequential traces ----------
+
+func seqCases(r *core.Run) {
+	rd := r.Rand
+	for n := 0; n < r.N(160, 2000); n++ {
+		kind := core.Pick(rd, StoreKinds)
+		seed := strconv.Itoa(rd.Intn(1 << 30))
+		if rd.Chance(6) {
+			seed = "z0" // constant randomness: every candidate collides with the previous one
+		}
+		// phase A: tokenization requests (some repeated), then run them to learn the tokens
+		var items []item
+		nA := 1 + rd.Intn(6)
+		for i := 0; i < nA; i++ {
+			ty := core.Pick(rd, tyNames)
+			c := rd.Intn(len(contexts))
+			v := genValue(rd, ty)
+			if len(items) > 0 && rd.Chance(35) { // repeat an earlier value (maybe other mode / context)
+				p := items[rd.Intn(len(items))]
+				ty, v = p.ty, p.v
+				if rd.Chance(60) {
+					c = p.ctx
+				}
+			}
+			items = append(items, itemA(rd.Chance(60), c, ty, v))
+		}
+		res, _, _ := runTrace("seq", kind, seed, strs(items))
+		// phase B: append detokenizations (owner, foreign, unknown), maintenance, more tokenizations
+		nB := rd.Intn(8)
+		for i := 0; i < nB; i++ {
+			switch rd.Intn(10) {
+			case 0, 1, 2, 3: // owner
+				j := rd.Intn(nA)
+				if tok, ok := okTok(res[j]); ok {
+					d := itemD(items[j].ctx, items[j].ty, tok)
+					d.owner = j
+					items = append(items, d)
+				}
+			case 4, 5: // foreign context
+				j := rd.Intn(nA)
+				if tok, ok := okTok(res[j]); ok {
+					c := rd.Intn(len(contexts))
+					d := itemD(c, items[j].ty, tok)
+					d.owner = j
+					items = append(items, d)
+				}
+			case 6: // unknown token / wrong type
+				ty := core.Pick(rd, tyNames)
+				d := itemD(rd.Intn(len(contexts)), ty, genValue(rd, ty))
+				items = append(items, d)
+			case 7:
+				items = append(items, itemM(core.Pick(rd, []string{"disable", "enable", "remove"}), core.Pick(rd, []string{"all", "dis", "ena"})))
+			default:
+				j := rd.Intn(nA)
+				items = append(items, itemA(rd.Chance(70), items[j].ctx, items[j].ty, items[j].v))
+			}
+		}
+		nontrivial := false
+		for _, x := range res {
+			if strings.HasPrefix(x, "ok.") {
+				nontrivial = true
+			}
+		}
+		r.Begin("seq:"+kind+":"+seed+":"+strings.Join(strs(items), " "), nontrivial, "stream:structured", "store:"+kind, fmt.Sprintf("seq-len:%d", len(items)/4*4))
+		out := execTrace(r, "seq", kind, seed, items)
+		judge(r, items, out)
+	}
+	// targeted: a token of one context looked up under every other context, and never-issued tokens
+	for n := 0; n < r.N(40, 400); n++ {
+		kind := core.Pick(rd, StoreKinds)
+		seed := strconv.Itoa(rd.Intn(1 << 30))
+		ty := core.Pick(rd, tyNames)
+		v := genValue(rd, ty)
+		if ty == "email" && len(v) < 3 {
+			v = []byte("abc@d.com")
+		}
+		c := rd.Intn(len(contexts))
+		items := []item{itemA(rd.Bool(), c, ty, v)}
+		res, _, _ := runTrace("seq", kind, seed, strs(items))
+		tok, ok := okTok(res[0])
+		if !ok {
+			continue
+		}
+		for o := range contexts {
+			d := itemD(o, ty, tok)
+			if !sameCtx(o, c) {
+				d.owner = -2
+			}
+			items = append(items, d)
+		}
+		u := itemD(c, ty, genValue(rd, ty))
+		if !bytes.Equal(u.v, tok) {
+			u.owner = -2
+		}
+		items = append(items, u)
+		// maintenance round trip
+		items = append(items, itemM("disable", "all"), itemD(c, ty, tok), itemA(true, c, ty, v), itemM("enable", "all"), itemD(c, ty, tok), itemM("remove", "all"), itemD(c, ty, tok))
+		r.Begin("foreign:"+kind+":"+seed+":"+strings.Join(strs(items), " "), true, "stream:structured", "store:"+kind, "seq:foreign+maintenance")
+		out := execTrace(r, "seq", kind, seed, items)
+		judge(r, items, out)
+		// direct maintenance oracle: disabled → token itself; enabled → value; removed → token itself
+		nD := len(contexts) + 1
+		if len(out) >= nD+5 {
+			exp := []struct {
+				i    int
+				want []byte
+				what string
+			}{{nD + 1, tok, "disabled token must come back as is"}, {nD + 3, v, "re-enabled token must detokenize"}, {nD + 4, tok, "removed token must come back as is"}}
+			for _, e := range exp {
+				got, ok := okTok(out[e.i])
+				r.Check(ok && bytes.Equal(got, e.want), "maintenance-effect", e.what+": got "+out[e.i])
+			}
+		}
+	}
+}
+
+// ---------- DataTokenizer ----------
+
+var decimalTexts = []string{"0", "1", "-1", "+5", "007", "-0", "2147483647", "2147483648", "-2147483648", "-2147483649", "4294967296", "4294967297",
+	"9223372036854775807", "9223372036854775808", "-9223372036854775808", "-9223372036854775809", "18446744073709551617", "", "-", "+", "12a", " 1", "1 ", "1_000", "0x10", "1e3", "１"}
+
+func judgeDataTok(r *core.Run, items []item, res []string) {
+	th := 0
+	for _, it := range items {
+		switch it.kind {
+		case 'A', 'D', 'U':
+			th++
+		case 'T':
+			out := res[th]
+			th++
+			r.Check(out != "panic", "anonymize-panic:"+it.ty+fmt.Sprintf(":len%d", len(it.v)), "DataTokenizer.Tokenize panics")
+			if it.ty != "int32" && it.ty != "int64" {
+				continue
+			}
+			bits := 32
+			if it.ty == "int64" {
+				bits = 64
+			}
+			_, err := strconv.ParseInt(string(it.v), 10, bits)
+			tok, ok := okTok(out)
+			if err != nil {
+				r.Check(!ok, "int-out-of-range-accepted:"+it.ty, fmt.Sprintf("Tokenize accepts %q for an %s column (got token %s)", it.v, it.ty, string(tok)))
+			} else if ok {
+				_, e2 := strconv.ParseInt(string(tok), 10, bits)
+				r.Check(e2 == nil, "int-token-out-of-range:"+it.ty, fmt.Sprintf("token %q is not a decimal %s", tok, it.ty))
+			}
+		}
+	}
+}
+
+func dataTokCases(r *core.Run) {
+	rd := r.Rand
+	for n := 0; n < r.N(120, 1200); n++ {
+		kind := core.Pick(rd, StoreKinds)
+		seed := strconv.Itoa(rd.Intn(1 << 30))
+		ty := core.Pick(rd, tyNames)
+		c := rd.Intn(len(contexts))
+		var text []byte
+		tags := []string{"stream:structured"}
+		switch {
+		case ty == "int32" || ty == "int64":
+			if rd.Chance(60) {
+				text = []byte(core.Pick(rd, decimalTexts))
+				tags = []string{"stream:boundary"}
+			} else if rd.Chance(50) {
+				text = []byte(strconv.FormatInt(int64(rd.U64())>>uint(rd.Intn(64)), 10))
+			} else {
+				text = rd.Bytes(rd.Intn(6))
+				tags = []string{"stream:malformed"}
+			}
+		default:
+			text = genValue(rd, ty)
+		}
+		cons := rd.Chance(60)
+		items := []item{itemT(cons, c, ty, text)}
+		res, _, _ := runTrace("seq", kind, seed, strs(items))
+		if tok, ok := okTok(res[0]); ok {
+			items = append(items, itemU(c, ty, tok))       // owner gets the original text back (canonical form for ints)
+			items = append(items, itemU((c+1)%2, ty, tok)) // another client gets the token
+			if cons {
+				items = append(items, itemT(true, c, ty, text))
+			}
+		}
+		items = append(items, itemU(c, ty, []byte(core.Pick(rd, decimalTexts))))
+		r.Begin("datatok:"+kind+":"+seed+":"+strings.Join(strs(items), " "), true, append(tags, "store:"+kind, "datatok:"+ty)...)
+		out := execTrace(r, "seq", kind, seed, items)
+		judgeDataTok(r, items, out)
+		if tok, ok := okTok(res[0]); ok && len(out) >= 3 {
+			want := text
+			if ty == "int32" || ty == "int64" {
+				i, _ := strconv.ParseInt(string(text), 10, 64)
+				want = []byte(strconv.FormatInt(i, 10))
+			}
+			got, ok2 := okTok(out[1])
+			r.Check(ok2 && bytes.Equal(got, want), "datatok-owner-roundtrip:"+ty, fmt.Sprintf("Detokenize(Tokenize(%q)) = %s, want %q", text, out[1], want))
+			got, ok2 = okTok(out[2])
+			r.Check(ok2 && bytes.Equal(got, tok), "datatok-foreign", fmt.Sprintf("another client detokenizes %q to %s", tok, out[2]))
+			if cons && len(out) >= 4 {
+				got, ok2 = okTok(out[3])
+				r.Check(ok2 && bytes.Equal(got, tok), "consistent-token-differs", fmt.Sprintf("consistent Tokenize(%q) gave %q then %s", text, tok, out[3]))
+			}
+		}
+	}
+}
+
+// ---------- concurrent requests under seeded schedules of atomic store steps ----------
+
+func concCases(r *core.Run) {
+	rd := r.Rand
+	for n := 0; n < r.N(150, 2500); n++ {
+		kind := core.Pick(rd, StoreKinds)
+		seed := strconv.Itoa(rd.Intn(1 << 30))
+		if rd.Chance(5) {
+			seed = "z0"
+		}
+		nT := 2 + rd.Intn(4)
+		// overlapping values: few distinct values, one or two contexts
+		ty := core.Pick(rd, tyNames)
+		vals := [][]byte{genValue(rd, ty), genValue(rd, ty)}
+		if ty == "email" {
+			vals = [][]byte{[]byte("alice@example.com"), []byte("bob@example.org"), []byte("abc")}
+		}
+		var items []item
+		for i := 0; i < nT; i++ {
+			c := rd.Intn(2)
+			v := core.Pick(rd, vals)
+			if rd.Chance(85) {
+				items = append(items, itemA(rd.Chance(80), c, ty, v))
+			} else {
+				items = append(items, itemD(c, ty, v))
+			}
+		}
+		// schedule: random picks, enough to usually finish everything; maintenance sometimes in between
+		steps := rd.Intn(nT * 8)
+		for i := 0; i < steps; i++ {
+			if rd.Chance(4) {
+				items = append(items, itemM(core.Pick(rd, []string{"disable", "enable", "remove"}), core.Pick(rd, []string{"all", "dis", "ena"})))
+			} else {
+				items = append(items, itemR(rd.Intn(nT)))
+			}
+		}
+		r.Begin("conc:"+kind+":"+seed+":"+strings.Join(strs(items), " "), true, "stream:structured", "store:"+kind, fmt.Sprintf("conc-threads:%d", nT))
+		out := execTrace(r, "conc", kind, seed, items)
+		hasM := false
+		for _, it := range items {
+			if it.kind == 'M' {
+				hasM = true
+			}
+		}
+		// direct oracles on a maintenance-free concurrent run: consistent requests for one value in one
+		// context agree; different values never share a token
+		if hasM || len(out) < nT {
+			continue
+		}
+		type key struct {
+			c  bool
+			v  string
+			ty string
+		}
+		tokenOf := map[key]string{}
+		valueOf := map[key]string{}
+		for i := 0; i < nT; i++ {
+			it := items[i]
+			if it.kind != 'A' {
+				continue
+			}
+			r.Check(out[i] != "panic", fmt.Sprintf("anonymize-panic:%s:len%d", it.ty, len(it.v)), "tokenization panics")
+			tok, ok := okTok(out[i])
+			if !ok {
+				continue
+			}
+			cz := sameCtx(it.ctx, 0)
+			if it.cons {
+				k := key{cz, string(it.v), ty}
+				if p, seen := tokenOf[k]; seen {
+					r.Check(p == string(tok), "consistent-token-differs", fmt.Sprintf("concurrent consistent tokenizations of %s returned %s and %s", core.Hex(it.v), core.Hex([]byte(p)), core.Hex(tok)))
+				}
+				tokenOf[k] = string(tok)
+			}
+			tk := key{cz, string(tok), ty}
+			if p, seen := valueOf[tk]; seen {
+				r.Check(p == string(it.v), "token-shared", fmt.Sprintf("values %s and %s share token %s", core.Hex([]byte(p)), core.Hex(it.v), core.Hex(tok)))
+			}
+			valueOf[tk] = string(it.v)
+		}
+	}
+}
